@@ -24,6 +24,10 @@ pub struct Oracle {
   pub reported: BTreeMap<(String, String), Option<Vec<String>>>,
   /// last acknowledged update, to be checked against the next full read-back of the same list
   pub expect_acl: Option<(String, String, String, Vec<String>)>,
+  /// channel handler -> (max_clients, max_payload_size) as acknowledged since the channel was created
+  pub config: BTreeMap<String, (u32, u32)>,
+  default_config: (u32, u32),
+  fwd_event: bool,
   pub failures: Vec<String>,
 }
 
@@ -64,7 +68,51 @@ impl Oracle {
       owner: BTreeMap::new(),
       reported: BTreeMap::new(),
       expect_acl: None,
+      config: BTreeMap::new(),
+      default_config: (cfg.max_clients, cfg.max_payload),
+      fwd_event: cfg.has_op(narwhal_modulator::modulator::Operation::ForwardEvent),
       failures: Vec::new(),
+    }
+  }
+
+  /// C05 / C18: when connection `k` is the last one of its user, every remaining member of every channel
+  /// the user was in must be told (MEMBER_LEFT) in the same step
+  fn check_cleanup(&self, k: usize, env: &EnvS, got: &BTreeMap<usize, (Vec<RFrame>, bool)>, fails: &mut Vec<String>) {
+    let Some((2, Some(u))) = self.conns.get(&k).cloned() else { return };
+    if self.conns_of(&u).iter().any(|k2| *k2 != k) {
+      return;
+    }
+    let nid = format!("{u}@{}", self.domain);
+    for (h, ms) in &self.members {
+      if !ms.contains(&u) {
+        continue;
+      }
+      let chan = format!("!{h}@{}", self.domain);
+      for v in ms.iter().filter(|v| **v != u) {
+        for k2 in self.conns_of(v) {
+          let (fr2, closed2) = match got.get(&k2) {
+            Some(g) => (&g.0[..], g.1),
+            None => (&[][..], false),
+          };
+          if closed2 {
+            continue;
+          }
+          let told = fr2.iter().any(|f| {
+            matches!(&f.msg, Message::Event(p) if p.kind.as_ref() == "MEMBER_LEFT"
+              && p.channel.as_ref().map(|c| c.to_string()) == Some(chan.clone())
+              && p.nid.as_ref().map(|n| n.to_string()) == Some(nid.clone()))
+          });
+          if !told {
+            for tag in ["C05", "C18"] {
+              if self.fwd_event && !env.ev_ok {
+                fails.push(format!("{tag}: [cleanup-event-lost-when-forwarding-fails] the last connection of {u} ended while the modulator refused the event: member {v} of {h} (connection {k2}) was not told"));
+              } else {
+                fails.push(format!("{tag}: [cleanup-not-announced] the last connection of {u} ended but member {v} of {h} (connection {k2}) was not told MEMBER_LEFT"));
+              }
+            }
+          }
+        }
+      }
     }
   }
 
@@ -83,6 +131,7 @@ impl Oracle {
         self.members.retain(|_, m| !m.is_empty());
         let live: BTreeSet<String> = self.members.keys().cloned().collect();
         self.reported.retain(|(h, _), _| live.contains(h));
+        self.config.retain(|h, _| live.contains(h));
         if self.expect_acl.as_ref().is_some_and(|e| !live.contains(&e.0)) {
           self.expect_acl = None;
         }
@@ -120,6 +169,7 @@ impl Oracle {
         self.conns.insert(last_opened, (0, None));
       },
       Op::Close(k) => {
+        self.check_cleanup(*k, env, got, &mut fails);
         self.drop_conn(*k);
       },
       Op::Recv(k, req) => {
@@ -426,6 +476,7 @@ impl Oracle {
                     }
                     if self.members.get(&h).is_some_and(|s| s.is_empty()) {
                       self.members.remove(&h);
+                      self.config.remove(&h);
                       self.reported.retain(|(hh, _), _| *hh != h);
                       if self.expect_acl.as_ref().is_some_and(|e| e.0 == h) {
                         self.expect_acl = None;
@@ -467,6 +518,89 @@ impl Oracle {
               }
             },
             _ => {},
+          }
+
+          // ---- C05: both listings agree with the membership implied by the acknowledgements; existence probes
+          if let Req::Channels { id, owner, .. } = req {
+            for f in frames {
+              if let Message::ListChannelsAck(p) = &f.msg {
+                if p.id != *id {
+                  continue;
+                }
+                let mine: BTreeSet<String> =
+                  self.members.iter().filter(|(_, m)| m.contains(&u)).map(|(h, _)| format!("!{h}@{}", self.domain)).collect();
+                let listed: Vec<String> = p.channels.iter().map(|c| c.to_string()).collect();
+                for c in &listed {
+                  if !mine.contains(c) {
+                    fails.push(format!("C05: [views] CHANNELS of {u} lists {c}, which {u} has not joined (or has left)"));
+                  }
+                }
+                if !*owner {
+                  let total = p.total_count.map(|t| t as usize).unwrap_or(listed.len());
+                  if total != mine.len() {
+                    fails.push(format!("C05: [views] CHANNELS of {u} reports {total} channels but {u} is a member of {}: {mine:?}", mine.len()));
+                  }
+                }
+              }
+            }
+          }
+          if let Req::Members { id, chan, .. } = req {
+            if let Some(h) = handler_of(chan, &self.domain) {
+              for f in frames {
+                match &f.msg {
+                  Message::ListMembersAck(p) if p.id == *id => {
+                    let expect: BTreeSet<String> =
+                      self.members.get(&h).map(|s| s.iter().map(|m| format!("{m}@{}", self.domain)).collect()).unwrap_or_default();
+                    let listed: Vec<String> = p.members.iter().map(|c| c.to_string()).collect();
+                    for m in &listed {
+                      if !expect.contains(m) {
+                        fails.push(format!("C05: [views] MEMBERS of {h} lists {m}, who has not joined (or has left / disconnected)"));
+                      }
+                    }
+                    let total = p.total_count.map(|t| t as usize).unwrap_or(listed.len());
+                    if total != expect.len() {
+                      fails.push(format!("C05: [views] MEMBERS of {h} reports {total} members but {} joined and did not leave: {expect:?}", expect.len()));
+                    }
+                  },
+                  Message::Error(p) if p.id == Some(*id) => {
+                    let exists = self.members.contains_key(&h);
+                    if p.reason.as_ref() == "CHANNEL_NOT_FOUND" && exists {
+                      fails.push(format!("C05: [existence] {h} has members {:?} but the server says CHANNEL_NOT_FOUND", self.members.get(&h)));
+                    }
+                    if p.reason.as_ref() == "USER_NOT_IN_CHANNEL" && !exists {
+                      fails.push(format!("C05: [existence] channel {h} exists although it has no members"));
+                    }
+                  },
+                  _ => {},
+                }
+              }
+            }
+          }
+          if let Req::SetConfig { id, chan, mc, mp } = req {
+            if frames.iter().any(|f| matches!(&f.msg, Message::SetChannelConfigurationAck(p) if p.id == *id)) {
+              if let Some(h) = handler_of(chan, &self.domain) {
+                let cur = self.config.get(&h).cloned().unwrap_or(self.default_config);
+                self.config.insert(h, (if *mc > 0 { *mc } else { cur.0 }, if *mp > 0 { *mp } else { cur.1 }));
+              }
+            }
+          }
+          if let Req::GetConfig { id, chan } = req {
+            let h = chan.strip_prefix('!').and_then(|r| r.split_once('@')).map(|x| x.0.to_string());
+            if let Some(h) = h {
+              for f in frames {
+                if let Message::ChannelConfiguration(p) = &f.msg {
+                  if p.id == *id {
+                    let expect = self.config.get(&h).cloned().unwrap_or(self.default_config);
+                    if (p.max_clients, p.max_payload_size) != expect {
+                      fails.push(format!(
+                        "C05: [fresh] configuration of {h} is ({}, {}) but since its creation only {expect:?} was acknowledged",
+                        p.max_clients, p.max_payload_size
+                      ));
+                    }
+                  }
+                }
+              }
+            }
           }
 
           // ---- C01 / C02 / C08: deliveries of a broadcast
@@ -593,6 +727,7 @@ impl Oracle {
     // connections the server closed in this step
     for (k, (_, eof)) in got {
       if *eof {
+        self.check_cleanup(*k, env, got, &mut fails);
         self.drop_conn(*k);
       }
     }
